@@ -178,6 +178,7 @@ type Broker struct {
 	Unreliable bool
 	pointHolds []*pointHold
 	handlerHolds []*handlerHold
+	aliasReuse   bool // upstream stream aliases of closed streams are handed out again
 	noRead     bool
 }
 
@@ -188,6 +189,13 @@ func NewBrokerEnc(rec *Rec, enc string) *Broker {
 		b.enc = encjson.NewEncoding()
 	}
 	return b
+}
+
+// SetAliasReuse makes the broker reuse the stream aliases of closed upstreams.
+func (b *Broker) SetAliasReuse(on bool) {
+	b.mu.Lock()
+	b.aliasReuse = on
+	b.mu.Unlock()
 }
 
 func NewBroker(rec *Rec) *Broker {
@@ -777,6 +785,14 @@ func (i *Inc) handle(m message.Message) {
 		b.upBySid[u.Sid] = u
 		i.nextAlias++
 		alias := i.nextAlias
+		if b.aliasReuse {
+			// a broker that hands out the lowest stream alias not in use by an open upstream of this connection
+			for a, old := range i.upAlias {
+				if old.closed && a < alias {
+					alias = a
+				}
+			}
+		}
 		i.upAlias[alias] = u
 		b.mu.Unlock()
 		ids := []string{}
